@@ -11,10 +11,16 @@ from dst import runner
 # property -> list of (engine, profile, quick runs, thorough runs)
 PLANS = {
     "C20": [("D", "default", 600, 12000)],
-    "C16": [("A", "rsa", 120, 2400)],
-    "C17": [("A", "rsa", 120, 2400)],
-    "C07": [("A", "rsa", 120, 2400)],
-    "C18": [("A", "rsa", 160, 3000)],
+    "C16": [("A", "rsa", 90, 1800), ("A", "ec", 40, 600),
+            ("A", "ecdsa", 32, 500)],
+    "C17": [("A", "rsa", 90, 1800), ("A", "ec", 40, 600),
+            ("A", "ecdsa", 32, 500), ("A", "ec_big", 3, 40)],
+    "C07": [("A", "rsa", 90, 1800), ("A", "ec", 40, 600),
+            ("A", "ecdsa", 32, 500)],
+    "C18": [("A", "rsa", 110, 2200), ("A", "ec", 48, 700),
+            ("A", "ecdsa", 40, 600), ("A", "ec_big", 3, 40)],
+    "C10": [("B", "tiny", 1500, 40000), ("B", "named", 500, 12000),
+            ("A", "ec", 40, 700), ("A", "ec_big", 4, 60)],
 }
 BUDGET = {"quick": 170.0, "thorough": 2100.0}
 
